@@ -2,18 +2,18 @@
 # usage: confirm_seed.sh <prop> <m>   — confirms a seeded change inside its scratch worktree /tmp/seed/<prop>
 # (compiles, pinned suite passes with it, demo fails with it and passes without) and stores it as /verif/seeded/<prop>-<m>/
 set -u
-P=$1; M=$2; W=/tmp/seed/$P; O=$W/out/$M
+P=$1; M=$2; BASE=${3:-/tmp/seed}; W=$BASE/$P; O=$W/out/$M
 export GOFLAGS=-mod=mod GOPROXY=off
 cd $W || exit 2
 git checkout -q -- . 
 DEMO=$(ls -d $W/seeddemo_$M 2>/dev/null | head -1)
 if [ -z "$DEMO" ]; then mkdir -p $W/seeddemo_$M; cp -r $O/demo/* $W/seeddemo_$M/; DEMO=$W/seeddemo_$M; fi
 res() { echo "$1" ; }
-go test -vet=off -count=1 ./$(basename $DEMO)/... > /tmp/seed/$P-$M-demo-without.log 2>&1; DW=$?
+go test -vet=off -count=1 ./$(basename $DEMO)/... > $BASE/$P-$M-demo-without.log 2>&1; DW=$?
 git apply $O/patch.diff || { echo "PATCH DOES NOT APPLY"; exit 2; }
-go build ./... > /tmp/seed/$P-$M-build.log 2>&1; B=$?
-go test -vet=off -count=1 $(go list ./... | grep -v seeddemo | grep -v "/out/") > /tmp/seed/$P-$M-suite.log 2>&1; S=$?
-go test -vet=off -count=1 ./$(basename $DEMO)/... > /tmp/seed/$P-$M-demo-with.log 2>&1; DC=$?
+go build ./... > $BASE/$P-$M-build.log 2>&1; B=$?
+go test -vet=off -count=1 $(go list ./... | grep -v seeddemo | grep -v "/out/") > $BASE/$P-$M-suite.log 2>&1; S=$?
+go test -vet=off -count=1 ./$(basename $DEMO)/... > $BASE/$P-$M-demo-with.log 2>&1; DC=$?
 git checkout -q -- .
 APPLIES=no; git -C /repo apply --check $O/patch.diff 2>/dev/null && APPLIES=yes
 echo "$P $M: build=$B suite=$S demo_without=$DW (want 0) demo_with=$DC (want !=0) applies_to_repo_head=$APPLIES"
@@ -21,5 +21,5 @@ if [ $B -eq 0 ] && [ $S -eq 0 ] && [ $DW -eq 0 ] && [ $DC -ne 0 ]; then
   D=/verif/seeded/$P-$M; mkdir -p $D; cp $O/patch.diff $D/; rm -rf $D/demo; cp -r $DEMO $D/demo; cp $O/notes.md $D/notes.md 2>/dev/null
   echo "CONFIRMED -> $D"
 else
-  echo "NOT CONFIRMED"; tail -5 /tmp/seed/$P-$M-suite.log
+  echo "NOT CONFIRMED"; tail -5 $BASE/$P-$M-suite.log
 fi
